@@ -26,6 +26,8 @@ struct gm_params {
 	unsigned live; /* frozen LPs keep re-scheduling their tick (no state change): the event population never dies out, so a run can end
 	               * only through the termination predicates / termination time (no Lean twin: implementation-side oracles only) */
 	unsigned fwd_tok; /* V2-only mode: zero-delay forwards of IDENTICAL content to the next LP (bit 1 of the `t0` field of the model line) */
+	unsigned stop_at; /* LP 0 calls RootsimStop() when its event counter reaches this value (0: never); no effect on the handler's
+	                   * outputs or state, so the Lean twin is unchanged (parallel modes only) */
 	unsigned nostate; /* STATELESS LPs: no SetState() (the handler gets a NULL state), no draw at LP_INIT, every event draws from the library
 	                   * RNG and its outputs depend on the draw: the only rollbackable state is the generator (no Lean twin) */
 	unsigned lib; /* also use the floating-point library RNG API (no Lean twin: judged by the implementation-side oracles only) */
@@ -238,6 +240,8 @@ static void gm_process(lp_id_t me, simtime_t now, unsigned type, const void *pl,
 	h = gm_fnv_bytes(h, pl, size);
 	st->acc = h;
 	st->cnt++;
+	if(GM.stop_at && me == 0 && st->cnt == GM.stop_at)
+		RootsimStop();
 	/* 2. library RNG */
 	if(GM.use_rng && (h & 1))
 		st->acc ^= RandomU64();
